@@ -1,9 +1,10 @@
 SPECIFICATION Spec
 CONSTANTS
   MaxRules = 2
-  Kinds = {"clean", "bare", "tmpl", "regexp", "agg", "broken", "both", "ovr"}
+  Kinds = {"clean", "bare", "tmpl", "regexp", "agg", "broken", "both", "ovr", "smelly"}
   Cfgs = {"none", "same", "mixed"}
   Twos = {FALSE, TRUE}
   Grps = {FALSE, TRUE}
+  Syms = {FALSE}
 INVARIANTS EmitCase
 CHECK_DEADLOCK FALSE
